@@ -363,17 +363,20 @@ Section Rev.
 
   Inductive sres := SOk (ids : list Z) | SErr (e : errkind) | SPanic.
 
-  (* SearchQuery::slice *)
+  (* SearchQuery::slice (the counts are clamped to the length before Z.to_nat only to keep the
+     extracted unary nat small: firstn / skipn beyond the length are the same) *)
   Definition slice_ids (limit offset : Z) (ids : list Z) : sres :=
     let n := Z.of_nat (length ids) in
     if (limit =? 0) && (offset =? 0) then SOk ids
     else if limit =? 0 then
-      (if offset <=? n then SOk (skipn (Z.to_nat offset) ids)
+      (if offset <=? n then SOk (skipn (Z.to_nat (Z.min offset n)) ids)
        else if fix_slice_clamp rv then SOk [] else SPanic)
-    else if offset =? 0 then SOk (firstn (Z.to_nat limit) ids)
+    else if offset =? 0 then SOk (firstn (Z.to_nat (Z.min limit n)) ids)
     else
-      (if offset + limit <=? n then SOk (firstn (Z.to_nat limit) (skipn (Z.to_nat offset) ids))
-       else if fix_slice_clamp rv then SOk (firstn (Z.to_nat limit) (skipn (Z.to_nat offset) ids)) else SPanic).
+      (if offset + limit <=? n
+       then SOk (firstn (Z.to_nat (Z.min limit n)) (skipn (Z.to_nat (Z.min offset n)) ids))
+       else if fix_slice_clamp rv
+            then SOk (firstn (Z.to_nat (Z.min limit n)) (skipn (Z.to_nat (Z.min offset n)) ids)) else SPanic).
 
   Definition opt_ids (o : option (list Z)) : sres := match o with Some l => SOk l | None => SErr EFuel end.
 
